@@ -153,6 +153,16 @@ def functions(dates):
         # (beancount then finds no rate: a consistent no-op on both sides of the law)
         ("convert-usd", lambda x: F('convert', x, C('usd')), lambda pos, pm: convert.convert_position(pos, 'usd', pm, None)),
     ]
+    # convert() over AMOUNT operands (the Position / Inventory overloads are exercised above): on the row side
+    # convert(units(position), C) is the Amount overload, on the sum side convert(units(sum(position)), C)
+    fs.append(('convert-USD.units', lambda x: F('convert', F('units', x), C('USD')),
+               lambda pos, pm: convert.convert_amount(convert.get_units(pos), 'USD', pm, None)))
+    fs.append(('convert-USD.cost', lambda x: F('convert', F('cost', x), C('USD')),
+               lambda pos, pm: convert.convert_amount(convert.get_cost(pos), 'USD', pm, None)))
+    if dates:
+        dd = dates[0]
+        fs.append((f'convert-EUR.units@{dd}', lambda x: F('convert', F('units', x), C('EUR'), C(dd)),
+                   lambda pos, pm: convert.convert_amount(convert.get_units(pos), 'EUR', pm, dd)))
     if dates:
         d0 = dates[0]
         fs.append((f'convert-Eur@{d0}', lambda x: F('convert', x, C('Eur'), C(d0)),
@@ -209,10 +219,11 @@ def fold(kinds_values):
 
 # ---------------------------------------------------------------------------------------------
 class Ledger:
-    def __init__(self, seq, seed):
+    def __init__(self, seq, seed, variant=0):
         self.seq = tuple(seq)
         self.seed = seed
-        entries, errors, options = L.load(self.seq, seed)
+        self.variant = variant
+        entries, errors, options = L.load(self.seq, seed, variant)
         assert not errors, (seq, errors)
         self.entries = entries
         self.conn = beanquery.connect('beancount:', entries=entries, errors=errors, options=options)
@@ -224,7 +235,7 @@ class Ledger:
         return [i for i, (t, p) in enumerate(self.rows) if and3(ff(t, p), wf(t, p)) is True]
 
     def case(self, kind, **kw):
-        return {'seq': list(self.seq), 'seed': self.seed, 'kind': kind, **jsonable(kw)}
+        return {'seq': list(self.seq), 'seed': self.seed, 'variant': self.variant, 'kind': kind, **jsonable(kw)}
 
 
 def show(x):
@@ -862,10 +873,23 @@ BCOND = {
 BPATTERNS = {'refs0': ['P'], 'refs1': ['P', 'B'], 'refs2': ['B', 'P', 'B']}
 
 
-def check_balw(led, cname, pname, stats):
+# FROM expressions that reject EARLIER entries, combined with a balance-reading WHERE: FROM decides first,
+# the balance runs over the postings of the entries FROM keeps (WHERE is evaluated on every one of those)
+BFROM = {
+    'none': (lambda: None, None, lambda t: True),
+    'date>=D1': (lambda: A.From(expression=A.GreaterEq(col('date'), C(L.DATES[1]))), f'date >= {L.DATES[1]}', lambda t: t.date >= L.DATES[1]),
+    "narration~'t[12]-'": (lambda: A.From(expression=A.Match(col('narration'), C('t[12]-'))), "narration ~ 't[12]-'",
+                           lambda t: bool(re.search('t[12]-', t.narration, re.IGNORECASE))),
+}
+
+
+def check_balw(led, cname, pname, stats, fname='none'):
     toks = BPATTERNS[pname]
-    stmt = select([(TOK[tok](), f'c{i}') for i, tok in enumerate(toks)], where=BCOND[cname][0]())
+    stmt = select([(TOK[tok](), f'c{i}') for i, tok in enumerate(toks)], from_=BFROM[fname][0](), where=BCOND[cname][0]())
     desc = bql(', '.join(TOK_TEXT[t] for t in toks), where_text=cname)
+    if BFROM[fname][1]:
+        desc = desc.replace(' WHERE ', f' FROM {BFROM[fname][1]} WHERE ', 1)
+    scanned = [(t, p) for t, p in led.rows if BFROM[fname][2](t)]
     try:
         got = led.conn.execute(stmt).fetchall()
     except Exception as e:
@@ -874,12 +898,14 @@ def check_balw(led, cname, pname, stats):
     ref = BCOND[cname][1]
     exp = []
     pre = Inv()
-    for t, p in led.rows:
+    for t, p in scanned:
         pre.add_position(p)
         if ref(pre, t, p) is True:
             exp.append((p, copy.copy(pre)))
-    stats['rows_scanned_with_balance'] += len(led.rows)
-    if len(exp) < len(led.rows):
+    stats['rows_scanned_with_balance'] += len(scanned)
+    if 0 < len(scanned) < len(led.rows):
+        stats['balance_in_where_behind_from_filter'] += 1
+    if len(exp) < len(scanned):
         stats['balw_filtering_cases'] += 1
     if len(got) != len(exp):
         return [('balance:where', f'{desc}: {len(got)} rows selected, reference (balance = sum over all rows scanned so far) selects {len(exp)}')]
@@ -913,7 +939,7 @@ def run_case(led, case, stats, fdates=None, total=None, totals=None):
     if kind == 'bal':
         return check_bal(led, case['where'], case['from'], case['pattern'], stats, total)
     if kind == 'balw':
-        return check_balw(led, case['cond'], case['pattern'], stats)
+        return check_balw(led, case['cond'], case['pattern'], stats, case.get('from', 'none'))
     if kind == 'invsub':
         return check_invsub(led, case['where'], case['inner'], case['outer'], case['shape'], stats)
     if kind == 'lazy':
@@ -926,7 +952,11 @@ def run_case(led, case, stats, fdates=None, total=None, totals=None):
 
 
 def replay(case):
-    led = Ledger(case['seq'], case['seed'])
+    if case.get('variant'):
+        # the doubled-rates ledger is only ever checked right after the same ledger with the ordinary rates
+        base = Ledger(case['seq'], case['seed'], 0)
+        run_case(base, dict(case, variant=0), Stats())
+    led = Ledger(case['seq'], case['seed'], case.get('variant', 0))
     stats = Stats()
     totals = None
     if case['kind'] == 'agg' and case['group'] != 'none':
@@ -1001,8 +1031,16 @@ def shard(shard_i, nshards, n, seed, tier):
                     emit(case, run_case(led, case, stats))
         for cname in BCOND:
             for pname in BPATTERNS:
-                case = led.case('balw', cond=cname, pattern=pname)
-                emit(case, run_case(led, case, stats))
+                for bf in BFROM:
+                    case = led.case('balw', cond=cname, pattern=pname, **{'from': bf})
+                    emit(case, run_case(led, case, stats))
+        # the same ledger with every rate doubled, right after (and, for the next ledger, right before) the
+        # ordinary rates in the same process: nothing about prices may survive a connection
+        led2 = Ledger(seq, seed, 1)
+        acc.count('price_variant_ledgers')
+        for gname in ('none', 'account'):
+            case = led2.case('agg', where='none', **{'from': 'none'}, group=gname, fdates=fdates)
+            emit(case, run_case(led2, case, stats, fdates=fdates))
         source_before = [(t.date, t.narration, p.account, p.units, p.cost, p.price) for t, p in led.rows]
         for shape in ISHAPES:
             for wname in IWHERE:
@@ -1088,6 +1126,8 @@ def run(ctx):
         'rows_folded_by_reference': c['rows_folded'],
         'balance_references_compared': c['balance_refs'],
         'grouped_balance_statements_with_several_groups': c['grouped_balance_statements_with_several_groups'],
+        'ledgers_rechecked_with_doubled_rates': c['price_variant_ledgers'],
+        'balance_in_where_behind_from_filter_statements': c['balance_in_where_behind_from_filter'],
         'lazy_reference_statements': c['lazy_reference_statements'],
         'balance_references_behind_a_NULL_argument': c['balance_refs_behind_null_argument'],
         'rows_scanned_with_balance_in_where': c['rows_scanned_with_balance'],
